@@ -34,7 +34,7 @@ CONSTANTS N,           \* number of pool components
 
 Node == 1..N
 WrapMode == {"none", "early", "after", "bothDiff", "bothSame", "spring"}
-FailMode == {"none", "resolve", "before", "aps", "init", "after", "early"}
+FailMode == {"none", "resolve", "before", "aps", "init", "after", "early", "run"}     \* "run": an application runner whose Run fails
 MetaKinds == {"raw", "earlyP", "afterP"}
 Callbacks == {"resolve", "before", "aps", "init", "after"}
 
@@ -58,8 +58,9 @@ VARIABLES sc,        \* the scenario
           status,    \* "refresh" | "done" | "failed"
           lookups,   \* user lookups issued so far
           failedEver, \* some creation attempt failed in this run
-          pinit      \* Init() calls of the user post-processors (sc.procs), which are components themselves
-vars == <<sc, L1, L2, L3, inCr, stack, fS, fL, deps, earlyRuns, seen, phase, cnt, queue, status, lookups, failedEver, pinit>>
+          pinit,     \* Init() calls of the user post-processors (sc.procs), which are components themselves
+          ran        \* application runners invoked so far (sequence of nodes)
+vars == <<sc, L1, L2, L3, inCr, stack, fS, fL, deps, earlyRuns, seen, phase, cnt, queue, status, lookups, failedEver, pinit, ran>>
 
 EarlyVer(s, n) ==
   IF s.wrap[n] \in {"early", "bothDiff", "bothSame", "spring"}
@@ -78,6 +79,10 @@ SortedEager(s) ==
                      ELSE Asc(i + 1, IF i \notin s.lazy THEN Append(acc, i) ELSE acc)
   IN Asc(1, <<>>)
 
+\* The App component (created first: its name sorts before the pool's) holds the application runners in a slice, so the
+\* runner nodes (sc.rorder: in candidate iteration order, lazy ones included) are created before the name-ordered refresh.
+InitQueue(s) == s.rorder \o SortedEager(s)
+SeqRange(q) == {q[i] : i \in 1..Len(q)}
 ZeroCnt == [c \in Callbacks |-> 0]
 \* lifecycle modes a user post-processor can impose on a component (sc.mode):
 \*   "normal"    the full lifecycle
@@ -95,8 +100,8 @@ InitWith(s) ==
   /\ deps = [n \in Node |-> [k \in MetaKinds |-> {}]]
   /\ earlyRuns = [n \in Node |-> 0] /\ seen = [n \in Node |-> {}]
   /\ phase = [n \in Node |-> "new"] /\ cnt = [n \in Node |-> ZeroCnt]
-  /\ queue = SortedEager(s) /\ status = "refresh" /\ lookups = 0 /\ failedEver = FALSE
-  /\ pinit = [p \in 1..Len(s.procs) |-> 0]
+  /\ queue = InitQueue(s) /\ status = "refresh" /\ lookups = 0 /\ failedEver = FALSE
+  /\ pinit = [p \in 1..Len(s.procs) |-> 0] /\ ran = <<>>
 ResetTo(s) ==
   /\ sc' = s
   /\ L1' = [n \in Node |-> NoV] /\ L2' = [n \in Node |-> NoV] /\ L3' = {} /\ inCr' = {}
@@ -105,8 +110,8 @@ ResetTo(s) ==
   /\ deps' = [n \in Node |-> [k \in MetaKinds |-> {}]]
   /\ earlyRuns' = [n \in Node |-> 0] /\ seen' = [n \in Node |-> {}]
   /\ phase' = [n \in Node |-> "new"] /\ cnt' = [n \in Node |-> ZeroCnt]
-  /\ queue' = SortedEager(s) /\ status' = "refresh" /\ lookups' = 0 /\ failedEver' = FALSE
-  /\ pinit' = [p \in 1..Len(s.procs) |-> 0]
+  /\ queue' = InitQueue(s) /\ status' = "refresh" /\ lookups' = 0 /\ failedEver' = FALSE
+  /\ pinit' = [p \in 1..Len(s.procs) |-> 0] /\ ran' = <<>>
 
 Init == \E s \in Scenarios : InitWith(s)
 
@@ -206,7 +211,7 @@ Get(t, kind) ==
                                      [f0 EXCEPT !.exp = [n |-> t, k |-> IF asSlice THEN "L" ELSE "S", o |-> "wait"]]],
                                   Frame(t))
                /\ UNCHANGED <<fS, fL, deps>>
-  /\ UNCHANGED <<sc, pinit, L1, inCr, phase, cnt>>
+  /\ UNCHANGED <<sc, pinit, ran, L1, inCr, phase, cnt>>
 
 \* EVENT createBegin(n): GetSingletonOrCreateByFactory marked the name and entered the factory
 CreateBegin ==
@@ -215,7 +220,7 @@ CreateBegin ==
   /\ earlyRuns' = [earlyRuns EXCEPT ![Top.n] = 0]
   /\ seen' = [seen EXCEPT ![Top.n] = {}]
   /\ stack' = [stack EXCEPT ![Len(stack)] = [Top EXCEPT !.pc = "factory"]]
-  /\ UNCHANGED <<sc, pinit, L1, L2, L3, fS, fL, deps, phase, cnt, queue, status, lookups, failedEver>>
+  /\ UNCHANGED <<sc, pinit, ran, L1, L2, L3, fS, fL, deps, phase, cnt, queue, status, lookups, failedEver>>
 
 \* EVENT addFactory(n): doCreateComponent exposes the early-reference factory.
 \* With FixF3 the further-matching processor (Order 4) rejects a required self-only point before the
@@ -226,7 +231,7 @@ AddFactory ==
   /\ L3' = L3 \cup {Top.n}
   /\ phase' = [phase EXCEPT ![Top.n] = "populating"]
   /\ stack' = [stack EXCEPT ![Len(stack)] = [Top EXCEPT !.pc = IF FixF3 /\ SelfOnly(sc, Top.n) THEN "fail" ELSE "resolve"]]
-  /\ UNCHANGED <<sc, pinit, L1, L2, inCr, fS, fL, deps, earlyRuns, seen, cnt, queue, status, lookups, failedEver>>
+  /\ UNCHANGED <<sc, pinit, ran, L1, L2, inCr, fS, fL, deps, earlyRuns, seen, cnt, queue, status, lookups, failedEver>>
 
 Bump(n, c) == [cnt EXCEPT ![n][c] = @ + 1]
 
@@ -235,7 +240,7 @@ Shortcut ==
   /\ stack # <<>> /\ Top.pc = "factory" /\ sc.mode[Top.n] = "shortcut"
   /\ stack' = [stack EXCEPT ![Len(stack)] = [Top EXCEPT !.pc = "sainit"]]
   /\ phase' = [phase EXCEPT ![Top.n] = "populating"]
-  /\ UNCHANGED <<sc, pinit, L1, L2, L3, inCr, fS, fL, deps, earlyRuns, seen, cnt, queue, status, lookups, failedEver>>
+  /\ UNCHANGED <<sc, pinit, ran, L1, L2, L3, inCr, fS, fL, deps, earlyRuns, seen, cnt, queue, status, lookups, failedEver>>
 \* EVENT after(n, ok) on the shortcut path: only the after-initialization callbacks run, then the component is returned
 SAfter ==
   /\ stack # <<>> /\ Top.pc = "sainit"
@@ -244,7 +249,7 @@ SAfter ==
      /\ IF sc.fail[n] = "after"
         THEN stack' = [stack EXCEPT ![Len(stack)] = [Top EXCEPT !.pc = "fail"]] /\ UNCHANGED phase
         ELSE stack' = [stack EXCEPT ![Len(stack)] = [Top EXCEPT !.pc = "end", !.exp = Raw(n)]] /\ phase' = [phase EXCEPT ![n] = "ainit"]
-  /\ UNCHANGED <<sc, pinit, L1, L2, L3, inCr, fS, fL, deps, earlyRuns, seen, queue, status, lookups, failedEver>>
+  /\ UNCHANGED <<sc, pinit, ran, L1, L2, L3, inCr, fS, fL, deps, earlyRuns, seen, queue, status, lookups, failedEver>>
 
 \* EVENT resolve(n, ok): ResolveAfterInstantiation reached the rig processor (PostProcessProperties)
 Resolve ==
@@ -255,7 +260,7 @@ Resolve ==
                  ELSE [Top EXCEPT !.pc = "pop", !.todoS = IF FixF3 THEN sc.single[n] \ {n} ELSE sc.single[n],
                                               !.todoL = IF FixF3 THEN sc.slice[n] \ {n} ELSE sc.slice[n]]]
      /\ cnt' = Bump(n, "resolve")
-  /\ UNCHANGED <<sc, pinit, L1, L2, L3, inCr, fS, fL, deps, earlyRuns, seen, phase, queue, status, lookups, failedEver>>
+  /\ UNCHANGED <<sc, pinit, ran, L1, L2, L3, inCr, fS, fL, deps, earlyRuns, seen, phase, queue, status, lookups, failedEver>>
 
 PopulateDone(f) == f.pc = "pop" /\ f.todoS = {} /\ f.todoL = {} /\ ~f.open
 
@@ -270,7 +275,7 @@ Callback(pcFrom, failTag, pcTo, ph) ==
              /\ UNCHANGED phase
         ELSE /\ stack' = [stack EXCEPT ![Len(stack)] = [Top EXCEPT !.pc = pcTo]]
              /\ phase' = [phase EXCEPT ![n] = ph]
-  /\ UNCHANGED <<sc, pinit, L1, L2, L3, inCr, fS, fL, deps, earlyRuns, seen, queue, status, lookups, failedEver>>
+  /\ UNCHANGED <<sc, pinit, ran, L1, L2, L3, inCr, fS, fL, deps, earlyRuns, seen, queue, status, lookups, failedEver>>
 
 BInit  == \/ (stack # <<>> /\ sc.mode[Top.n] # "beforeNil" /\ Callback("pop", "before", "aps", "binit"))
           \/ \* the processor returns nil: InitializeComponent hands the untouched instance back, Init is skipped
@@ -280,7 +285,7 @@ BInit  == \/ (stack # <<>> /\ sc.mode[Top.n] # "beforeNil" /\ Callback("pop", "b
                 /\ IF sc.fail[n] = "before"
                    THEN stack' = [stack EXCEPT ![Len(stack)] = [Top EXCEPT !.pc = "fail"]] /\ UNCHANGED phase
                    ELSE stack' = [stack EXCEPT ![Len(stack)] = [Top EXCEPT !.pc = "check", !.exp = Raw(n)]] /\ phase' = [phase EXCEPT ![n] = "binit"]
-             /\ UNCHANGED <<sc, pinit, L1, L2, L3, inCr, fS, fL, deps, earlyRuns, seen, queue, status, lookups, failedEver>>
+             /\ UNCHANGED <<sc, pinit, ran, L1, L2, L3, inCr, fS, fL, deps, earlyRuns, seen, queue, status, lookups, failedEver>>
 APS    == Callback("aps", "aps", "init", "aps")
 InitCb == Callback("init", "init", "ainit", "init")
 
@@ -298,7 +303,7 @@ AInit ==
                                        ELSE [n |-> n, k |-> "afterP", o |-> AfterObj(n)]]]
              \* a substituted object gets a fresh proxy Meta without dependents
              /\ deps' = IF AfterObj(n) # "raw" THEN [deps EXCEPT ![n]["afterP"] = {}] ELSE deps
-  /\ UNCHANGED <<sc, pinit, L1, L2, L3, inCr, fS, fL, earlyRuns, seen, queue, status, lookups, failedEver>>
+  /\ UNCHANGED <<sc, pinit, ran, L1, L2, L3, inCr, fS, fL, earlyRuns, seen, queue, status, lookups, failedEver>>
 
 \* EVENT getNoEarly(n): doCreateComponent compares the exposed object with the early reference
 Check ==
@@ -311,7 +316,7 @@ Check ==
                     IF er # NoV /\ ex # Raw(n) /\ actual # {}
                     THEN [Top EXCEPT !.pc = "fail"]
                     ELSE [Top EXCEPT !.pc = "end", !.exp = final]]
-  /\ UNCHANGED <<sc, pinit, L1, L2, L3, inCr, fS, fL, deps, earlyRuns, seen, phase, cnt, queue, status, lookups, failedEver>>
+  /\ UNCHANGED <<sc, pinit, ran, L1, L2, L3, inCr, fS, fL, deps, earlyRuns, seen, phase, cnt, queue, status, lookups, failedEver>>
 
 \* EVENT createEnd(n, ok|err): GetSingletonOrCreateByFactory returns
 CreateEnd ==
@@ -342,28 +347,36 @@ CreateEnd ==
              ELSE
                /\ stack' = [Pop EXCEPT ![Len(stack) - 1] = [p EXCEPT !.pc = "fail", !.exp = NoV]]
                /\ UNCHANGED <<fS, fL, deps>>
-  /\ UNCHANGED <<sc, pinit, earlyRuns, seen, cnt, queue, lookups>>
+  /\ UNCHANGED <<sc, pinit, ran, earlyRuns, seen, cnt, queue, lookups>>
 
 \* EVENT procInit(p): PrepareComponents creates every NON-lazy user post-processor through the factory (its
 \* lifecycle runs once, before any ordinary component is refreshed); a LazyInit post-processor that no eager
 \* component needs is registered but never initialised.
-NothingCreatedYet == stack = <<>> /\ status = "refresh" /\ queue = SortedEager(sc) /\ \A n \in Node : phase[n] = "new"
+NothingCreatedYet == stack = <<>> /\ status = "refresh" /\ queue = InitQueue(sc) /\ \A n \in Node : phase[n] = "new"
 ProcInit(p) ==
   /\ p \in 1..Len(sc.procs) /\ ~sc.procs[p] /\ pinit[p] = 0 /\ NothingCreatedYet
   /\ pinit' = [pinit EXCEPT ![p] = 1]
-  /\ UNCHANGED <<sc, L1, L2, L3, inCr, stack, fS, fL, deps, earlyRuns, seen, phase, cnt, queue, status, lookups, failedEver>>
+  /\ UNCHANGED <<sc, L1, L2, L3, inCr, stack, fS, fL, deps, earlyRuns, seen, phase, cnt, queue, status, lookups, failedEver, ran>>
 ProcsReady == \A p \in 1..Len(sc.procs) : sc.procs[p] \/ pinit[p] = 1
 
-\* EVENT runReturn(ok): refresh finished with nothing (left) to create
-RefreshDone ==
-  /\ status = "refresh" /\ stack = <<>> /\ queue = <<>> /\ (\A p \in 1..Len(sc.procs) : sc.procs[p] \/ pinit[p] = 1)
-  /\ status' = "done"
+\* EVENT run(n, ok): App.callRunners after the refresh; the pool's runners are unordered participants of the ordering
+\* contract, so their relative order is free; the first error stops the start
+Refreshed == status = "refresh" /\ stack = <<>> /\ queue = <<>> /\ (\A p \in 1..Len(sc.procs) : sc.procs[p] \/ pinit[p] = 1)
+RunnerRun(n) ==
+  /\ Refreshed /\ n \in SeqRange(sc.rorder) /\ n \notin SeqRange(ran)
+  /\ ran' = Append(ran, n)
+  /\ status' = IF sc.fail[n] = "run" THEN "failed" ELSE status
   /\ UNCHANGED <<sc, pinit, L1, L2, L3, inCr, stack, fS, fL, deps, earlyRuns, seen, phase, cnt, queue, lookups, failedEver>>
+\* EVENT runReturn(ok): refresh finished with nothing (left) to create, every runner ran
+RefreshDone ==
+  /\ Refreshed /\ SeqRange(ran) = SeqRange(sc.rorder)
+  /\ status' = "done"
+  /\ UNCHANGED <<sc, pinit, ran, L1, L2, L3, inCr, stack, fS, fL, deps, earlyRuns, seen, phase, cnt, queue, lookups, failedEver>>
 
 Next == (\E t \in Node, kind \in {"S", "L", "top"} : Get(t, kind)) \/ CreateBegin \/ AddFactory \/ Resolve
         \/ BInit \/ APS \/ InitCb \/ AInit \/ Check \/ CreateEnd \/ RefreshDone
         \/ \E p \in 1..2 : ProcInit(p)
-        \/ Shortcut \/ SAfter
+        \/ Shortcut \/ SAfter \/ (\E n \in Node : RunnerRun(n))
 
 Spec == Init /\ [][Next]_vars
 LiveSpec == Spec /\ WF_vars(Next)
@@ -435,7 +448,7 @@ ReachSet(s, frontier, seenSet) ==
        IN ReachSet(s, nxt, seenSet \cup nxt)
 Reach(s, a) == ReachSet(s, {a}, {})            \* nodes reachable from a by >= 1 edge
 DirectDeps(s, n) == {t \in Node : <<n, t>> \in Edges(s)}
-EagerReach(s) == LET eager == Node \ s.lazy IN eager \cup UNION {Reach(s, e) : e \in eager}
+EagerReach(s) == LET eager == (Node \ s.lazy) \cup SeqRange(s.rorder) IN eager \cup UNION {Reach(s, e) : e \in eager}
 
 \* when Init(n) runs, every dependency that does not depend back on n is fully initialised
 C05_DepsFirst ==
@@ -455,8 +468,14 @@ C02_FailIffSelfOnly ==
   (Quiescent /\ NoSubst /\ status \in {"done", "failed"} /\ lookups = 0) =>
      ((status = "failed") <=> (\E h \in EagerReach(sc) : SelfOnly(sc, h)))
 
+\* ---- C13 (on the engine): runners once, only after every needed component is published, none after an error
+C13_Once == \A i, j \in 1..Len(ran) : i # j => ran[i] # ran[j]
+C13_AfterReady == ran # <<>> => (stack = <<>> /\ queue = <<>> /\ \A n \in EagerReach(sc) : phase[n] = "published")
+C13_StopAtError == \A i \in 1..Len(ran) : sc.fail[ran[i]] = "run" => i = Len(ran)
+C09_NoRunnerAfterFailure == [][Len(ran') > Len(ran) => (status = "refresh" /\ ~failedEver)]_vars
+
 \* ---- C09: any injected fault reachable from an eager node fails the start (as an error, see the trace spec for panics)
 \* (a shortcut component fetches nothing, so what lies behind it is not reached through it)
 FaultReached(s) == \E n \in EagerReach(s) : s.fail[n] \in Reached(s.mode[n])
-C09_FaultFails == (Quiescent /\ status = "done" /\ lookups = 0) => ~FaultReached(sc)
+C09_FaultFails == (Quiescent /\ status = "done" /\ lookups = 0) => (~FaultReached(sc) /\ \A n \in SeqRange(sc.rorder) : sc.fail[n] # "run")
 =============================================================================
